@@ -239,9 +239,10 @@ class Check(object):
                 return k
         return None
 
-    def violation(self, name, case, note=""):
-        """report one violating case (unless it is a listed known finding)"""
-        k = self.match_known(case)
+    def violation(self, name, case, note="", match=True):
+        """report one violating case (unless it is a listed known finding; match=False: a kind of
+        failure no known finding describes, never suppressed)"""
+        k = self.match_known(case) if match else None
         if k is not None:
             self.known_hits[k["what"]] = self.known_hits.get(k["what"], 0) + 1
             return False
